@@ -51,17 +51,14 @@ macro_rules! total_on_slices {
         }
     };
 }
+// (BranchInfo, FunctionSignature, Invocation, Statement and Vec<VarId> were attempted and dropped:
+// CBMC exceeds 12 GB / 15 min on the SmolStr-carrying ids inside heap vectors; see DESIGN.md.)
 total_on_slices!(c14_deser_usize, usize, 8);
 total_on_slices!(c14_deser_statement_idx, StatementIdx, 8);
 total_on_slices!(c14_deser_branch_target, BranchTarget, 8);
 total_on_slices!(c14_deser_var_id, VarId, 8);
 total_on_slices!(c14_deser_version_id, VersionId, 8);
 total_on_slices!(c14_deser_vec_u64, Vec<u64>, 8);
-total_on_slices!(c14_deser_vec_var_id, Vec<VarId>, 8);
-total_on_slices!(c14_deser_branch_info, BranchInfo, 8);
-total_on_slices!(c14_deser_function_signature, FunctionSignature, 8);
-total_on_slices!(c14_deser_invocation, Invocation, 8);
-total_on_slices!(c14_deser_statement, Statement, 8);
 
 /// The capacity reserved before reading elements never exceeds the remaining input.
 #[kani::proof]
